@@ -51,6 +51,9 @@ class ValidateAndReformat(NdContract):
     def on_call(self, eng, st, node, name, recv, args, kwargs):
         if name == "isinstance" and args[0] is self.X and args[1] in (["pd.DataFrame"], ["pandas.DataFrame"]):
             return self.X_is_df
+        if name == "isinstance" and is_nd(args[0]) and args[0].kind == "user" and args[0] is not self.X and args[1] in (["pd.DataFrame"], ["pandas.DataFrame"], ["pd.Series"], ["pandas.Series"]):
+            # the caller's container type is not fixed: a 2-d argument may be a DataFrame, a 1-d one a Series (both carry the caller's row labels)
+            return Bool(f"{args[0].name}_is_a_{'DataFrame' if 'DataFrame' in args[1][0] else 'Series'}") if len(args[0].shape) == (2 if "DataFrame" in args[1][0] else 1) else False
         if name == "_merge_columns" and is_nd(args[0]):
             a = args[0]
             return Nd(a.name, (a.shape[0],), "ndarray", "ERASED", merged=True, cols=a.shape[1] if len(a.shape) > 1 else 1)
@@ -59,6 +62,11 @@ class ValidateAndReformat(NdContract):
         if name == "str" and args and isinstance(args[0], tuple):
             return z3.String("str(shape)")
         return super().on_call(eng, st, node, name, recv, args, kwargs)
+
+    def on_attr(self, eng, st, node, base, attr):
+        if is_nd(base) and base.kind == "user" and attr in ("index", "columns"):
+            return Abstract("callers_labels", of=base.name, which=attr)
+        return super().on_attr(eng, st, node, base, attr)
 
     def _series_ok(self, v, src):
         return is_nd(v) and v.kind == "series" and v.prov == "DEFAULT"
